@@ -4,6 +4,7 @@
   (aggregate.py's own dummy_jit already does that when Numba is off);
 * @overload(is_na_item_numba) dispatch is modelled by the sort of the cell:
   Float -> np.isnan, NPDatetime -> np.isnat, UnicodeType -> == "", anything else -> False;
+* arguments that are ndarray subclasses are unboxed to base-class views (Numba types them as plain arrays);
 * np.unique inside a kernel follows Numba's implementation (sort + neighbour !=): NaNs are not collapsed.
 Every witness is replayed on the real Numba build in a fresh process, which is what keeps this model honest."""
 import contextlib
@@ -33,6 +34,24 @@ def install(di):
             f = overload_impl(t)
         return f(x)
     ag.is_na_item_numba = is_na_item
+    # unboxing: a compiled kernel sees an ndarray subclass (Vector / DataFrameColumn) as a plain array over the same
+    # memory, so methods resolve to ndarray's (x.sort() sorts in place, it is not Vector.sort)
+    import functools, types as _types
+    def unboxing(f):
+        @functools.wraps(f)
+        def call(*a, **k):
+            a = [x.view(symnp.ndarray) if isinstance(x, symnp.ndarray) and type(x) is not symnp.ndarray else x for x in a]
+            return f(*a, **k)
+        call._vf_unboxing = True
+        return call
+    for name, f in list(vars(ag).items()):
+        if name.endswith("_numba") and isinstance(f, _types.FunctionType) and name not in ("is_na_item_numba", "generic_numba") and not getattr(f, "_vf_unboxing", False):
+            setattr(ag, name, unboxing(f))
+    gen = ag.generic_numba
+    @functools.lru_cache(256)
+    def generic_numba(function):
+        return unboxing(gen(function))
+    ag.generic_numba = generic_numba
     _installed = True
 
 def run(inp, W):
